@@ -96,6 +96,9 @@ type ExternalPredicateCallback interface {
 type EvalOptions struct {
 	createdFactLimit int
 	totalFactLimit   int
+	// totalTemporalFactLimit bounds the number of facts in the temporal store
+	// (facts present before evaluation + createdFactLimit), 0 means no limit.
+	totalTemporalFactLimit int
 	// if non-nil, only predicates in this allowlist get evaluated.
 	predicateAllowList *func(ast.PredicateSym) bool
 	externalPredicates map[ast.PredicateSym]ExternalPredicateCallback
@@ -221,6 +224,9 @@ func EvalStratifiedProgramWithStats(programInfo *analysis.ProgramInfo,
 	}
 	if opts.createdFactLimit > 0 {
 		opts.totalFactLimit = store.EstimateFactCount() + opts.createdFactLimit
+		if opts.temporalStore != nil {
+			opts.totalTemporalFactLimit = opts.temporalStore.EstimateFactCount() + opts.createdFactLimit
+		}
 	}
 	// Set default evaluation time if not specified
 	evalTime := opts.evalTime
@@ -582,6 +588,9 @@ func (e *engine) eval() error {
 						added, err := e.temporalStore.Add(tf.Atom, *tf.Interval)
 						if err != nil {
 							return err
+						}
+						if e.options.totalTemporalFactLimit > 0 && e.temporalStore.EstimateFactCount() > e.options.totalTemporalFactLimit {
+							return fmt.Errorf("fact size limit reached evaluating %q: %d temporal facts > %d", deltaRule.String(), e.temporalStore.EstimateFactCount(), e.options.totalTemporalFactLimit)
 						}
 						if added {
 							if newTemporalDeltaStore != nil {
